@@ -122,6 +122,19 @@ def run(tier, seed):
           elif k == 'get_config_md':
             sc2 = study.materialize_study_config()
             v = sorted((str(ns), kk, str(vv)) for ns in sc2.metadata.namespaces() for kk, vv in sc2.metadata.abs_ns(ns).items())
+          elif k == 'lookup_missing':
+            # by-name lookup of a study that does not exist, through the endpoint configuration every client uses
+            from vizier._src.service import constants as _const
+            old_ep = vizier_client.environment_variables.server_endpoint
+            vizier_client.environment_variables.server_endpoint = server.endpoint if server is not None else _const.NO_ENDPOINT
+            try:
+              if op[1] == 'name':
+                clients.Study.from_resource_name('owners/o1/studies/never_created_%d' % op[2])
+              else:
+                clients.Study.from_owner_and_id('o1', 'never_created_%d' % op[2])
+              v = 'found'
+            finally:
+              vizier_client.environment_variables.server_endpoint = old_ep
           elif k == 'delete_study':
             v = study.delete()
           else:
@@ -193,14 +206,18 @@ def run(tier, seed):
         prog.append(('md_study', r.choice(['', 'a']), r.choice('vw')))
       elif u < 0.985:
         prog.append(('md_trial', tid, r.choice('vw')))
-      elif u < 0.995:
+      elif u < 0.992:
         prog.append(('get_config_md',))
+      elif u < 0.996:
+        prog.append(('lookup_missing', r.choice(['name', 'owner_and_id']), r.randrange(3)))
       else:
         prog.append(('delete_study',))
       # the same call once more (a call that changes nothing the second time must be answered alike everywhere)
       if prog and prog[-1][0] in ('set_state', 'stop', 'complete', 'delete_trial', 'md_study', 'md_trial', 'get_state', 'add_measurement') \
           and r.random() < (0.6 if prog[-1][0] == 'set_state' else 0.25):
         prog.append(prog[-1])
+    if r.random() < 0.5:
+      prog.insert(r.randrange(len(prog) + 1), ('lookup_missing', r.choice(['name', 'owner_and_id']), r.randrange(3)))
     return prog
 
   nprog = 40 if tier == 'quick' else 150
@@ -223,9 +240,12 @@ def run(tier, seed):
         if a[0] == 'err' and b[0] == 'err':
           cases.append('(%s, %s)' % (g_cerr(a[1]), g_cerr(b[1])))
           objs.append(obj)
+          # the listed finding is about server-side exceptions that reach the client as they are (calls on a missing trial /
+          # study); a by-name lookup converts EVERY failure to ResourceNotFoundError on the client side and is not part of it
           if a[1][0] == 'raw' and a[1][1] in ('ENotFound', 'EKey', 'ResourceNotFoundError', 'EAlreadyExists') and b[1] == ('status', 'UNKNOWN') \
-              and 'C08-escaping-exception-unknown' in known:
+              and op[0] != 'lookup_missing' and 'C08-escaping-exception-unknown' in known:
             rep.known('C08-escaping-exception-unknown', known['C08-escaping-exception-unknown']['what'])
+            rep.count('known_escaping_on_' + op[0])
             continue
         concrete = True
         rep.violation('deployments local and %s disagree on %s' % (d, op[0]), obj)
